@@ -58,6 +58,34 @@ impl Script {
         self
     }
 
+    /// timed mode: let time pass (Tick) and answer every vote request until some node is leader
+    /// and its election is over; returns the leader's id
+    pub fn run_until_leader(&mut self) -> Option<u32> {
+        for _ in 0..40 {
+            let (pending, leader) = {
+                let c = self.cluster.as_ref().unwrap();
+                let pending = c.election.as_ref().map(|el| el.peers[el.answered.len()]);
+                let leader = c
+                    .last_views
+                    .values()
+                    .filter(|v| v.role == crate::simkit::cluster::RoleKind::Leader)
+                    .map(|v| v.id)
+                    .next();
+                (pending, leader)
+            };
+            match (pending, leader) {
+                (Some(p), _) => {
+                    self.ev(Event::Vote(p, VoteAns::Deliver));
+                }
+                (None, Some(l)) => return Some(l),
+                (None, None) => {
+                    self.ev(Event::Tick);
+                }
+            }
+        }
+        None
+    }
+
     /// Deliver queued requests / responses (FIFO per link, links in ascending order) for which
     /// `allow(link, is_response)` holds, until nothing matching is left.
     pub fn drain<F: Fn(&LinkId, bool) -> bool>(&mut self, allow: F) -> &mut Self {
@@ -119,6 +147,11 @@ impl Script {
             }
         }
         false
+    }
+
+    /// node whose election (vote collection) is in flight
+    pub fn election_node(&self) -> Option<u32> {
+        self.cluster.as_ref().unwrap().election.as_ref().map(|e| e.node)
     }
 
     /// (link, queued requests, queued responses) of the live links
